@@ -15,7 +15,7 @@ TRUSTED = ['NumPy cos/sin/dot/mean in binary64 (compared with the exact rational
 RULE = ('histories of 1-6 transforms on tables of 1-40 atoms with independent selections; rational unit axes '
         '(Pythagorean quadruples), rational (cos, sin), generic angles in [-4pi, 4pi], multiples of pi/2, Euler triples, '
         'explicit matrices incl. the 24 lattice rotations on a 0.125 grid (compared exactly), followed by inverses. '
-        'Non-trivial: a proper sub-selection, or a rotation whose angle is not a multiple of pi, or an Euler triple '
+        'Also: a single selected atom exactly on the origin, integer-valued points as int64/int32 arrays or nested int lists, seeds as NumPy integer scalars. Non-trivial: a proper sub-selection, or a rotation whose angle is not a multiple of pi, or an Euler triple '
         'with three non-trivial angles, or an exact lattice case.')
 TOL = 1e-9
 
@@ -100,6 +100,17 @@ def gen_db_case(rng, tier):
             sel = {'chainID': ['Z']}            # empty selection (tie only)
         o['sel'] = sel
         hist.append(o)
+    if rng.random() < 0.12:
+        # one atom alone, moved onto the origin (exactly: p + (-p) = 0) and away again / sitting on the origin from the start
+        k = rng.randrange(n)
+        sel = {'rowID': [k]}
+        if rng.random() < 0.5:
+            atoms[k][5:8] = [0.0, 0.0, 0.0]
+            hist = [{'op': 'translation', 'vect': [round(rng.uniform(-30, 30), 3) for _ in range(3)], 'sel': sel}] + hist[:2]
+        else:
+            p = atoms[k][5:8]
+            hist = [{'op': 'translation', 'vect': [-x for x in p], 'sel': sel}, {'op': 'translation', 'vect': list(p), 'sel': sel}] + hist[:1]
+        return {'kind': 'db', 'atoms': atoms, 'history': hist, 'inverse': False, 'exact': False, 'origin_atom': True}
     inverse = rng.random() < (0.35 if n <= 21 else 0.15)
     if inverse:
         for o in reversed(list(hist)):
@@ -115,7 +126,13 @@ def gen_fn_case(rng):
     while o['op'] == 'translation':
         o = gen_op(rng)
     center = None if rng.random() < 0.3 else [round(rng.uniform(-20, 20), 2) for _ in range(3)]
-    return {'kind': 'fn', 'pts': pts, 'o': o, 'center': center, 'center_is_list': rng.random() < 0.5}
+    case = {'kind': 'fn', 'pts': pts, 'o': o, 'center': center, 'center_is_list': rng.random() < 0.5}
+    if rng.random() < 0.25:
+        # coordinates that happen to be whole numbers, carried by an integer array or a nested list of Python ints
+        case['pts'] = [[rng.randint(-50, 50) for _ in range(3)] for _ in range(n)]
+        case['pts_carrier'] = rng.choice(['int64', 'int32', 'pylist'])
+        if case['pts_carrier'] == 'pylist': case['center_is_list'] = False      # (list - list is not defined in Python)
+    return case
 
 # ----------------------------------------------------------------------------------------
 def op_wire(o):
@@ -219,6 +236,8 @@ def db_feats(case, statuses):
         feats.add('composition')
     if case.get('inverse'):
         feats.add('followed-by-inverse')
+    if case.get('origin_atom'):
+        feats.add('selected-atom-on-the-origin')
     return sorted(feats)
 
 NONTRIVIAL = {'sub-selection', 'single-atom', 'axis-rational', 'axis-generic', 'axis-quarter', 'euler-three-angles', 'lattice-exact'}
@@ -227,7 +246,9 @@ NONTRIVIAL = {'sub-selection', 'single-atom', 'axis-rational', 'axis-generic', '
 def fn_impl(pdb2sql, case):
     import numpy as np
     T = pdb2sql.transform
-    xyz = np.array(case['pts'], dtype=float)
+    car = case.get('pts_carrier')
+    xyz = (np.array(case['pts'], dtype=float) if not car else [list(p) for p in case['pts']] if car == 'pylist'
+           else np.array(case['pts'], dtype={'int64': np.int64, 'int32': np.int32}[car]))
     o = case['o']
     c = case['center']
     if c is not None:
@@ -259,9 +280,11 @@ def fn_requests(case):
     return [m] + [['spec.geom.point', op_wire(o), ctr, p] for p in pts]
 
 # ---- random axis / angle ---------------------------------------------------------------------
-def rand_case(pdb2sql, seed):
+def rand_case(pdb2sql, seed, carrier=None):
     import numpy as np
     T = pdb2sql.transform
+    if carrier:      # the seed as a NumPy integer scalar (an element of np.arange / an integer array)
+        seed = {'int64': np.int64, 'int32': np.int32, 'uint32': np.uint32, 'intp': np.intp}[carrier](seed)
     ax1, an1 = T.get_rot_axis_angle(seed)
     ax2, an2 = T.get_rot_axis_angle(seed)
     np.random.seed(seed)
@@ -303,6 +326,7 @@ def explore(ctx, tier, rng, search=False):
         cases.append(gen_fn_case(rng))
     for _ in range(n_rand):
         cases.append({'kind': 'rand', 'seed': rng.choice([0, 0, 1, 2019, rng.randrange(2 ** 31), rng.randrange(100)])})
+        if rng.random() < 0.4: cases[-1]['seed_carrier'] = rng.choice(['int64', 'int32', 'uint32', 'intp'])
 
     # implementation first (the model needs what the database really holds), then one model batch
     impl_out, reqs, spans = [], [], []
@@ -314,7 +338,7 @@ def explore(ctx, tier, rng, search=False):
             r = fn_impl(pdb2sql, c)
             rq = fn_requests(c)
         else:
-            r = rand_case(pdb2sql, c['seed'])
+            r = rand_case(pdb2sql, c['seed'], c.get('seed_carrier'))
             rq = [rand_request(*r[4:])]
         impl_out.append(r)
         spans.append((len(reqs), len(reqs) + len(rq)))
@@ -383,6 +407,6 @@ def replay(ctx, case):
         spec_pts = [dv(x) for x in o[1:]]
         scale = max([abs(x) for p in case['pts'] for x in p] + [1.0]) * 2
         return close_pts(r[1], spec_pts, TOL, scale), f'max deviation from the specified isometry {maxdiff(r[1], spec_pts):.3e}'
-    ax1, an1, ax2, an2, u1, u2, u3 = rand_case(pdb2sql, case['seed'])
+    ax1, an1, ax2, an2, u1, u2, u3 = rand_case(pdb2sql, case['seed'], case.get('seed_carrier'))
     ok = abs(sum(x * x for x in ax1) - 1) < 1e-12 and 0 <= an1 < 2 * math.pi and ax1 == ax2 and an1 == an2
     return ok, f'axis {ax1} angle {an1}'
